@@ -19,7 +19,7 @@ NotReachedT == [reached |-> FALSE]
 
 \* fields of the observation record that can be compared when present in the observed record
 CmpFields == {"stepped", "step", "refresh", "usegraft", "active", "calls", "raised", "rootAt"}
-ListFields == {"dMP", "mP", "mK", "mG", "mF", "mM"}
+ListFields == {"dMP", "mP", "mK", "mG", "mF", "mM", "lCnt", "mCnt"}
 
 Mism(idx, gi, g, exp, ob) ==
   IF ~ob.has THEN {}
